@@ -1,0 +1,1 @@
+//! Verification hooks: `codec` (thin pass-through wrappers; feature `verif-hooks` only).
